@@ -151,9 +151,17 @@ class NuWiki:
             log.info(f"reading {file_name}")
             with open(self._pathjoin(file_name), "rb") as f:
                 file_content = str(f.read(), "utf-8")
-            pages = file_content.split("\n --page-- ")
+            separator = "\n --page-- "
+            pages = []
+            for chunk in file_content.split(separator)[1:]:
+                if pages and "\n" not in pages[-1]:
+                    # a text starting with the separator's tail: the newline that ends
+                    # its header was taken for the start of a record separator
+                    pages[-1] += separator + chunk
+                else:
+                    pages.append(chunk)
 
-            for page in pages[1:]:
+            for page in pages:
                 jmeta, rawtext = page.split("\n", 1)
                 meta = json.loads(jmeta)
                 new_page = Page(meta, rawtext)
